@@ -356,6 +356,7 @@ func scanMapRangeOrder(P *Program, sp ScanSpec) []*OblResult {
 		}
 	}
 	var out []*OblResult
+	var offenders []string
 	for _, fn := range stateMachineFuncs(P, sp) {
 		var ranges []*ssa.Range
 		sorts := false
@@ -446,10 +447,16 @@ func scanMapRangeOrder(P *Program, sp ScanSpec) []*OblResult {
 		}
 		if bad != "" {
 			out = append(out, scanResult(oname, "F8", false, "map iteration whose effect may depend on the order: "+bad))
+			offenders = append(offenders, name+" ("+bad+")")
 		} else {
 			out = append(out, scanResult(oname, "F8", true, "collect-then-sort or commutative body"))
 		}
 	}
+	// the census as a whole: an obligation that exists (and holds) on every tree, so that a map
+	// iteration appearing in a function that had none before fails something the ledger knows
+	sort.Strings(offenders)
+	out = append(out, scanResult(sp.Name+".every_map_iteration_in_block_execution", "F8", len(offenders) == 0,
+		fmt.Sprintf("map iterations whose effect may depend on the order: %v", offenders)))
 	return out
 }
 
